@@ -61,7 +61,19 @@ func generatedFile(name string) bool {
 }
 
 // Load loads the program. overlay maps absolute file names to replacement contents.
+// fileOverlay holds the overlay edits of the self test, also for non-Go inputs (Solidity, proto).
+var fileOverlay map[string][]byte
+
+// readRepoFile reads a file of the repository, honouring the overlay.
+func readRepoFile(path string) ([]byte, error) {
+	if b, ok := fileOverlay[path]; ok {
+		return b, nil
+	}
+	return os.ReadFile(path)
+}
+
 func Load(repoDir string, overlay map[string][]byte) (*Prog, error) {
+	fileOverlay = overlay
 	env := []string{}
 	for _, e := range os.Environ() {
 		if strings.HasPrefix(e, "GOWORK=") || strings.HasPrefix(e, "GOFLAGS=") {
